@@ -227,17 +227,43 @@ pub fn reparse(m: &Message) -> Result<Message, String> {
 }
 
 pub fn c11_case(src: &mut Src, obs: &mut Obs) -> CaseResult {
-    let w = gen_want(src);
+    let mut w = gen_want(src);
     let m = match build_zbus(&w) {
         Ok(m) => m,
         Err(e) => vfail!("builder refused a valid message: {e} (type {} path {:?} iface {:?} member {:?} dest {:?} sender {:?} error {:?})", w.mtype, w.path, w.interface, w.member, w.destination, w.sender, w.error_name),
     };
+    verify_built(&m, &w, "built", obs)?;
+    // A builder made from the header of that message, given another body: everything but the body
+    // (its signature and its descriptors) carries over, and the result is as well-formed.
+    if src.chance(100) {
+        let b = zbus::message::Builder::from(m.header());
+        w.serial = Some(m.primary_header().serial_num().get());
+        w.body = gen_body(src, &so(), &ValOpts::default());
+        let m2 = if w.body.is_empty() {
+            b.build(&())
+        } else {
+            let zv = to_value(&RVal::St(w.body.clone())).map_err(|x| Failure::new(x.0))?;
+            let Value::Structure(st) = zv else { unreachable!() };
+            b.build(&st)
+        };
+        let m2 = match m2 {
+            Ok(x) => x,
+            Err(e) => vfail!("a builder made from the header of a built message refused a valid body: {e}"),
+        };
+        obs.label("rebuilt-from-header");
+        verify_built(&m2, &w, "rebuilt from a header", obs)?;
+    }
+    Ok(())
+}
+
+fn verify_built(m: &Message, w: &Want, how: &str, obs: &mut Obs) -> CaseResult {
+    let m = m.clone();
     let bytes = m.data().bytes().to_vec();
     let describe = || format!("type={} flags={:#x} {} fields: path={:?} iface={:?} member={:?} err={:?} reply={:?} dest={:?} sender={:?} body={:?} bytes={}", w.mtype, w.flags, if w.big { "BE" } else { "LE" }, w.path, w.interface, w.member, w.error_name, w.reply_serial, w.destination, w.sender, w.body.iter().map(|b| b.show()).collect::<Vec<_>>(), hex(&bytes[..bytes.len().min(160)]));
-    compare_header(&m, &w, "built message").map_err(|f| Failure { key: f.key, msg: format!("{} ; {}", f.msg, describe()) })?;
+    compare_header(&m, w, &format!("{how} message")).map_err(|f| Failure { key: f.key, msg: format!("{} ; {}", f.msg, describe()) })?;
     // (a) zbus re-parse
     let again = reparse(&m).map_err(|e| Failure::new(format!("re-parsing the built message failed: {e}; {}", describe())))?;
-    compare_header(&again, &w, "re-parsed message").map_err(|f| Failure { key: f.key, msg: format!("{} ; {}", f.msg, describe()) })?;
+    compare_header(&again, w, &format!("{how} and re-parsed message")).map_err(|f| Failure { key: f.key, msg: format!("{} ; {}", f.msg, describe()) })?;
     vensure!(again.primary_header().serial_num() == m.primary_header().serial_num(), "serial changed on re-parse");
     vensure!(m.primary_header().serial_num().get() != 0, "serial is zero");
     // (b) independent parser
